@@ -20,7 +20,7 @@ RULE = (
     "summary date-time. Oracle: every observation point equals the instant truncated to that "
     "field's stored resolution (so they are mutually equal at the coarsest common resolution). "
     "Non-trivial: leap year or boundary day or last millisecond."
-    " The decimal-second texts (scene centre, first state vector) carry 3..6 fraction digits. Stage 'in-place-pairs': two products at the same root, one after the other, both judged."
+    " The decimal-second texts (scene centre, first state vector) carry 3..6 fraction digits. Stage 'in-place-pairs': two products at the same root, one after the other, both judged. Half of the cases judge the tree returned by the open that also writes the index cache, or a tree served from that cache; three in five run with the process time zone set away from UTC (PST8, JST-9, NPT-5:45)."
 )
 ASSUMPTIONS = [
     "ISO strings are compared as parsed instants",
@@ -40,6 +40,10 @@ def cases(draw):
         "vseed": draw(st.integers(0, 2**32 - 1)),
         # the scene centre may lie some minutes after the other fields' instant (next day / year)
         "leader": {"scene_center_offset_ms": draw(st.sampled_from([0, 0, 600_000]))},
+        # judged tree: a plain uncached open / the open that also writes the index cache / an open
+        # served from that cache; the process runs in UTC or in a zone west / east of it
+        "open_mode": draw(st.sampled_from(["plain", "plain", "creating", "cached"])),
+        "tz": draw(st.sampled_from([None, None, "PST8", "JST-9", "NPT-5:45"])),
     }
 
 
@@ -57,6 +61,7 @@ def classify(case):
     labels = [f"doy={inst['doy']}" if boundary else "doy=other", "leap" if leap else "non-leap"]
     if last:
         labels.append("day-edge-time")
+    labels += [f"open_mode={case.get('open_mode', 'plain')}", f"tz={case.get('tz')}"]
     return leap or boundary or last, labels
 
 
@@ -94,10 +99,17 @@ def run_case(case):
     spec["summary_entries"] = entries
     files, info = product.build_product(spec)
     out = []
-    with harness.Materialised(files, "memory") as prod:
-        tree, err = harness.guard(harness.open_tree, prod.url, use_cache=False)
+    mode = case.get("open_mode", "plain")
+    with harness.Materialised(files, "memory" if mode == "plain" else "local") as prod, harness.process_tz(case.get("tz")):
+        try:
+            tree, err = harness.guard(harness.open_tree, prod.url, use_cache=False, **({} if mode == "plain" else {"create_cache": True}))
+            if err is None and mode == "cached":
+                tree, err = harness.guard(harness.open_tree, prod.url, use_cache=True)
+        finally:
+            if mode != "plain":
+                common.drop_user_cache(prod.url, info["names"]["sar_imagery"])
         if err is not None:
-            return [harness.disc("exception", "open_alos2", "a tree", harness.exc_text(err))]
+            return [harness.disc("exception", f"open_alos2 ({mode})", "a tree", harness.exc_text(err))]
         points = []  # (where, getter, resolution in us)
         g = "imagery/HH"
         points.append((f"/{g}#sensor_acquisition_date", lambda: tree[g]["sensor_acquisition_date"].values[0], 1000))
